@@ -317,6 +317,29 @@ func init() {
 			{IncludeNames: []string{names[0], names[0], " " + names[1]}}, {Regex: ".", IncludeNames: []string{names[3]}},
 			{Regex: ".", ExcludeNames: []string{"nosuch"}}, {IncludeNames: []string{"nosuch", "alsonot"}, ExcludeNames: []string{"third"}},
 			{IncludeSources: []string{"CABF_BR"}, ExcludeSources: []string{"CABF_BR"}}}
+		// direct: a name list entry that is not a registered lint name after trimming - blank entries included - is an
+		// error, for both lists, alone or next to valid names and other options
+		for _, bad := range []string{"", " ", "\t", "  \n", "nosuchlint", names[0] + "x", strings.ToUpper(names[0]), names[0] + " " + names[1], ","} {
+			if contains(names, strings.TrimSpace(bad)) {
+				continue
+			}
+			for what, o := range map[string]lint.FilterOptions{
+				"IncludeNames alone":                 {IncludeNames: []string{bad}},
+				"ExcludeNames alone":                 {ExcludeNames: []string{bad}},
+				"IncludeNames after a valid name":    {IncludeNames: []string{names[0], bad}},
+				"ExcludeNames before a valid name":   {ExcludeNames: []string{bad, names[1]}},
+				"IncludeNames with an IncludeSource": {IncludeNames: []string{bad}, IncludeSources: lint.SourceList{lint.RFC5280}},
+			} {
+				if fr, err := g.Filter(o); err == nil {
+					n := -1
+					if fr != nil {
+						n = len(fr.Names())
+					}
+					out.Violate("C08|unknown-name-accepted", fmt.Sprintf("Filter accepts the unregistered name %q (%s) and returns a registry with %d lints", bad, what, n),
+						map[string]interface{}{"name": bad, "options": what}, "an unknown-lint-name error", fmt.Sprintf("registry with %d lints", n))
+				}
+			}
+		}
 		for _, ln := range late {
 			specs = append(specs, FilterSpec{IncludeNames: []string{ln}}, FilterSpec{Regex: "verif_late"}, FilterSpec{ExcludeNames: []string{ln}}, FilterSpec{IncludeSources: []string{byName[ln].Src}},
 				FilterSpec{ExcludeSources: []string{"Mozilla"}})
